@@ -77,11 +77,29 @@ def case(draw):
                              lies=False, timestamp=False, dist=True,
                              sub_prob=(3, 4), second_prob=(1, 3)))
     manifests = lay['manifests']
+    # sometimes the parent records a sub-Manifest with a hash this hashlib
+    # cannot compute: such a link can never be accepted
+    unsupported = [h for h in R.HASHLIB_NAME if h not in R.USABLE_HASHES]
+    weak = None
+    if unsupported and len(manifests) > 1 and draw(st.integers(0, 5)) == 0:
+        weak = draw(st.integers(1, len(manifests) - 1))
+        manifests[weak]['mhash'] = [unsupported[0]]
     before = layout.render(lay)
     # pick the target entry
     cands = [(mi, e) for mi, m in enumerate(manifests) for e in m['entries']
              if e['tag'] in ('DATA', 'MISC', 'EBUILD', 'AUX')
              and not e['path'].startswith('side/')]
+    if weak is not None:
+        # aim below the weak link
+        def below(i):
+            while i is not None:
+                if i == weak:
+                    return True
+                i = manifests[i]['parent']
+            return False
+        wc = [c for c in cands if below(c[0])]
+        if wc:
+            cands = wc
     deep = [c for c in cands if manifests[c[0]]['parent'] is not None]
     if deep and draw(st.integers(0, 4)) != 0:
         cands = deep
@@ -134,12 +152,15 @@ def case(draw):
         k = draw(st.integers(1, len(chain) - 1))
     else:
         k = 0
+    if weak is not None and manifests[weak]['p'] in chain[1:]:
+        k = chain.index(manifests[weak]['p'])
     rewritten = [amap[p] for p in chain[k:]]
     really_changed = amap[chain[k]]['text'] != bmap[chain[k]]['text']
     return {'tree': spec, 'manifests': before, 'ops': ops,
             'rewritten': rewritten, 'chain': chain, 'k': k, 'kind': kind,
             'x': x, 'edir': manifests[mi]['dir'], 'dist': dist_name,
             'changed': really_changed, 'tags': lay['tags'],
+            'weak': manifests[weak]['p'] if weak is not None else None,
             'warm': draw(st.booleans())}
 
 
@@ -152,6 +173,10 @@ def ekey(e):
         return None
     return (e.tag, e.path, getattr(e, 'size', None),
             tuple(sorted(getattr(e, 'checksums', {}).items())))
+
+
+def refverify_prefix(prefix, path):
+    return prefix == '' or path == prefix or path.startswith(prefix + '/')
 
 
 def ancestors_of(path):
@@ -181,10 +206,16 @@ def run_case(desc):
         # baseline answers for the unrelated path, before tampering
         y = 'side/s1'
         m0 = gem.loader(root)
-        base_entry = ekey(m0.find_path_entry(y))
-        base_verify = m0.verify_path(y)
+        if desc.get('weak'):
+            base_entry = base_verify = None
+        else:
+            base_entry = ekey(m0.find_path_entry(y))
+            base_verify = m0.verify_path(y)
         sane = gem.verify_lib(root)
-        if sane.kind != 'return' or sane.value is not True:
+        weak = desc.get('weak')
+        if weak:
+            pass    # cannot verify at all: an unsupported hash is recorded
+        elif sane.kind != 'return' or sane.value is not True:
             return violation(
                 f'consistent chain layout does not verify: {sane.describe()}',
                 sig='baseline-does-not-verify')
@@ -207,6 +238,22 @@ def run_case(desc):
                 gem.call(m.find_dist_entry, 'nothing-like-this')
             oc = gem.call(getattr(m, name), *args)
             what = f'{name}{args!r} (tamper {desc["kind"]}, k={k}, B={B!r})'
+            if weak:
+                # a link recorded only with a hash that cannot be computed:
+                # whatever was tampered, nothing beneath it may be used
+                if weak in chain and oc.kind == 'return' and (
+                        name != 'assert_directory_verifies'
+                        or refverify_prefix(layout.dirname(weak), args[0])
+                        or refverify_prefix(args[0], layout.dirname(weak))):
+                    val = oc.value
+                    if name in ('find_path_entry', 'find_dist_entry'):
+                        val = ekey(val)
+                    return violation(
+                        f'{what} returned {val!r} although {weak!r} is '
+                        f'recorded only with an unsupported hash and cannot '
+                        f'be checked', sig='unverifiable-link-accepted:'
+                        + name, classes=classes + ['weak-link'])
+                continue
             if k == 0:
                 # control: everything is consistent again
                 if oc.kind != 'return':
@@ -262,7 +309,7 @@ def run_case(desc):
         m = gem.loader(root)
         oc1 = gem.call(m.find_path_entry, y)
         oc2 = gem.call(m.verify_path, y)
-        if layout.dirname(B) == '':
+        if layout.dirname(B) == '' or weak:
             pass        # y lies beneath the broken Manifest's directory
         elif (oc1.kind != 'return' or ekey(oc1.value) != base_entry
                 or oc2.kind != 'return' or oc2.value != base_verify):
